@@ -17,7 +17,7 @@ func init() {
 		Explanation: "(R1) for the node-level subscribe, unsubscribe, disconnect and refresh: every field of the operation's options struct that an exported With… constructor can set is read when the control message for other nodes is built (so the option travels), " +
 			"(R2) every field the encoder stores into the control message is read back by handleControl, and (R3) handleControl dispatches every command member of controlpb.Command.",
 		NotDecided: "that the remote hub call behaves like the local one for equal options (same code path; the options are re-built from the message); delivery of the control message itself.",
-		Rules: map[string]string{"C27.R1": "K6a field-table: With-settable ⊆ encoded", "C27.R2": "K6a: encoded ⊆ decoded", "C27.R3": "K7 exhaustiveness over controlpb.Command members"},
+		Rules: map[string]string{"C27.R1": "K6a field-table: With-settable ⊆ encoded", "C27.R2": "K6a: encoded ⊆ decoded", "C27.R3": "K7 exhaustiveness over controlpb.Command members", "C27.R4": "sibling agreement: routing condition of sender and receiver"},
 		Run: runC27,
 	})
 	register(&PropMeta{
@@ -181,6 +181,33 @@ func runC27(c *Ctx) {
 	}
 	c.Floor("C27.R1", 20)
 	c.Floor("C27.R2", 25)
+	// R4: the calling node and the receiving node route to the fleet-wide (across users) path under the
+	// same condition: empty user AND the allUsers flag
+	nAcross := 0
+	for _, f := range w.AllFuncs {
+		for _, ci := range CallsIn(f, false, w.calleeIs("Hub.subscribeAcrossUsers", "Hub.unsubscribeAcrossUsers", "Hub.disconnectAcrossUsers", "Hub.refreshAcrossUsers")) {
+			nAcross++
+			emptyUser := Guarded(ci, func(g Guard) bool {
+				b, ok := g.Cond.(*ssa.BinOp)
+				if !ok {
+					return false
+				}
+				s, isS := constStrOf(b.Y)
+				if !isS || s != "" {
+					return false
+				}
+				d := strings.ToLower(D(b.X))
+				return strings.Contains(d, "user") && ((b.Op == token.EQL && g.Pol) || (b.Op == token.NEQ && !g.Pol))
+			})
+			allUsers := Guarded(ci, func(g Guard) bool {
+				d := D(g.Cond)
+				return g.Pol && (strings.HasSuffix(d, ".AllUsers") || strings.HasSuffix(d, ".allUsers"))
+			})
+			c.Check("C27.R4", ci, "fleet-wide dispatch only for an empty user with the allUsers flag", emptyUser && allUsers,
+				"the calling node takes the per-user path for a non-empty user even when allUsers is set; a receiving node that trusts the flag alone applies the operation to every user's connections there")
+		}
+	}
+	c.Floor("C27.R4", 8)
 	// R3
 	if hc != nil {
 		var cmdT *types.Struct
